@@ -141,6 +141,20 @@ fn apply(xml: &str, nodes: &[NodeInfo], ops: &J) -> Option<String> {
 
 /// Child side.
 pub fn child_case(c: &J) -> J {
+  // faults that retarget references can close requirement cycles, whose detection walks hash maps in an order that
+  // differs from map to map: such documents are loaded, built and invoked several times
+  let repeats = c["repeats"].as_u64().unwrap_or(1);
+  let mut last = child_once(c);
+  for _ in 1..repeats {
+    if last["panics"].as_array().map_or(false, |a| !a.is_empty()) {
+      break;
+    }
+    last = child_once(c);
+  }
+  last
+}
+
+fn child_once(c: &J) -> J {
   let xml = c["xml"].as_str().unwrap_or("");
   let mut panics = vec![];
   let mut inv = vec![];
@@ -307,7 +321,9 @@ pub fn check(mut ctx: Ctx, replay: Option<J>) -> ! {
   if quick && replay.is_none() {
     // the first model (by path, with test contexts, below 40 kB) showing each structural feature, plus models spread over the size range
     models.sort_by(|a, b| a.path.cmp(&b.path));
-    let features: [&dyn Fn(&Model) -> bool; 9] = [
+    let features: [&dyn Fn(&Model) -> bool; 11] = [
+      &|m| m.xml.matches("<requiredDecision").count() >= 8 && m.xml.len() > 40_000,
+      &|m| m.xml.matches("<requiredDecision").count() >= 8,
       &|m| m.xml.matches("<output ").count() >= 2 && m.xml.contains("<decisionTable"),
       &|m| m.xml.contains("isCollection=\"true\""),
       &|m| m.xml.contains("<decisionService"),
@@ -320,7 +336,7 @@ pub fn check(mut ctx: Ctx, replay: Option<J>) -> ! {
     ];
     let mut chosen: Vec<String> = vec![];
     for f in features {
-      if let Some(m) = models.iter().find(|m| m.xml.len() < 40_000 && m.ctxs.len() > 1 && f(m)) {
+      if let Some(m) = models.iter().find(|m| m.xml.len() < 60_000 && m.ctxs.len() > 1 && f(m)) {
         if !chosen.contains(&m.path) {
           chosen.push(m.path.clone());
         }
@@ -425,7 +441,8 @@ pub fn check(mut ctx: Ctx, replay: Option<J>) -> ! {
       }
     }
     names.truncate(12);
-    json!({"xml": t, "ctxs": model.map(|m| m.ctxs.clone()).unwrap_or_else(|| vec!["{}".to_string()]), "names": names, "count": count})
+    let retarget = r["ops"].as_array().map_or(false, |a| a.iter().any(|o| ["missing", "self", "other"].contains(&o["f"].as_str().unwrap_or(""))));
+    json!({"xml": t, "ctxs": model.map(|m| m.ctxs.clone()).unwrap_or_else(|| vec!["{}".to_string()]), "names": names, "count": count, "repeats": if retarget { 6 } else { 1 }})
   };
   let results = {
     let recs = &recs;
@@ -455,10 +472,10 @@ pub fn check(mut ctx: Ctx, replay: Option<J>) -> ! {
     let mut owner = vec![];
     for i in &dead {
       let inp = input_of(&recs[*i]);
-      sub_inputs.push(json!({"xml": inp["xml"], "ctxs": [], "names": []}));
+      sub_inputs.push(json!({"xml": inp["xml"], "ctxs": [], "names": [], "repeats": inp["repeats"]}));
       owner.push((*i, "(build)".to_string()));
       for name in inp["names"].as_array().cloned().unwrap_or_default() {
-        sub_inputs.push(json!({"xml": inp["xml"], "ctxs": inp["ctxs"], "names": [name]}));
+        sub_inputs.push(json!({"xml": inp["xml"], "ctxs": inp["ctxs"], "names": [name], "repeats": inp["repeats"]}));
         owner.push((*i, name.as_str().unwrap_or("").to_string()));
       }
     }
